@@ -428,7 +428,8 @@ func (s neverMatchSelector) Match(n *html.Node) bool {
 }
 
 func (s neverMatchSelector) Specificity() Specificity {
-	return Specificity{0, 0, 0}
+	// :hover, :visited... are pseudo-classes; their specificity matters in :not(:hover)
+	return Specificity{0, 1, 0}
 }
 
 func (c neverMatchSelector) PseudoElement() string {
